@@ -258,5 +258,6 @@ pub fn run(tier: Tier, seed: u64) -> i32 {
         exhaustive_note: "all programs x all layouts within the bounds (K=4 in the thorough tier with single deviations)".into(),
         e1: false,
     };
+    total.merge(crate::props::c13::api_use_part(&deadline));
     finish(meta, total, started)
 }
